@@ -109,6 +109,11 @@ PROBE_RULES = {
     "copy_filtered": ("copy/filtered", "ok"),
     "copy_to": ("copy_to", "ok"),
     "callback_fault_fired": (None, "fault"),
+    "visit_skip": ("SKIP", "ok"),
+    "visit_stop": ("STOP", "ok"),
+    "iter_zigzag": ("iter/zigzag", "ok"),
+    "iter_random": ("iter/random", "ok"),
+    "read_save_stream": ("read/save_stream", "ok"),
 }
 
 
